@@ -40,6 +40,9 @@ CONSTANTS
   Kinds = {kinds}
   MaxEnv = {maxenv}
   MaxFaults = {maxfaults}
+  MaxResign = {maxresign}
+  ResignMods = {mods}
+  NLens = {nlens}
   Lens = {lens}
   TotalFaults = {total}
   Regions <- AllRegions
@@ -54,12 +57,15 @@ CONSTANTS
   Fudges = {{2}}
   Skews <- MCSkews4
   Errors = {{0}}
-  Kinds = {{"stream"}}
+  Kinds = {{"{kind}"}}
   MaxEnv = 3
   MaxFaults = 1
+  MaxResign = {maxresign}
+  ResignMods = {{"body"}}
 {inv}
 CHECK_DEADLOCK FALSE
 """
+ALL_MODS = '{"none", "id", "head", "body"}'
 AXES = c14_tsig.VARIANT_AXES
 ALL_VARIANTS = [dict(zip(AXES, v)) for v in itertools.product(*AXES.values())]
 
@@ -70,7 +76,7 @@ def tset(xs):
 
 def gen(ctx, name, **kw):
     d = dict(algs="<- AllAlgs", fudges="{0, 2}", skews="GSkews", errors="{0, 16}", kinds=tset(["query", "response", "stream"]),
-             maxenv=3, maxfaults=1, lens="{2, 3}", total=1)
+             maxenv=3, maxfaults=1, lens="{2, 3}", total=1, maxresign=0, mods="{}", nlens="{1}")
     d.update(kw)
     return ctx.generate("Gen_Tsig", ctx.cfg(name, GEN_CFG.format(**d)), heap="2g")
 
@@ -94,7 +100,8 @@ def classify(tr, line, clause):
         return NOALG_SIG
     fl = ",".join(sorted((x.get("region") or x.get("what") or x["op"]) for x in ev[:line] if x["op"] in
                          ("tamper", "benign", "move", "strip", "cfault", "skew")))
-    return "%s:%s:%s:%s:%s:%s" % (clause, e.get("op", "?"), st.get("kind"), st.get("alg"), fl or "-", e.get("out", e.get("res", "")))
+    op = e.get("op", "?") + ("/" + e["mod"] if e.get("op") == "resign" else "")
+    return "%s:%s:%s:%s:%s:%s" % (clause, op, st.get("kind"), st.get("alg"), fl or "-", e.get("out", e.get("res", "")))
 
 
 def run(ctx):
@@ -114,13 +121,19 @@ def run(ctx):
             ctx.log("C14_SKIP_MODEL set: exhaustive model runs skipped")
         elif quick:
             ctx.model("MC_Tsig", "MC_Tsig_quick.cfg", heap="3g", workers=1)  # 1 worker = 1 TLC slot: not starved on a busy machine
+            ctx.model("MC_Tsig", "MC_Tsig_quick_resign.cfg", heap="3g", workers=1)
             ctx.model("MC_Tsig", "MC_Tsig_quick_stream.cfg", heap="3g", workers=1)
         else:
             ctx.model("MC_Tsig", "MC_Tsig_thorough.cfg", heap="6g")
+            ctx.model("MC_Tsig", "MC_Tsig_thorough_resign.cfg", heap="6g")
+            ctx.model("MC_Tsig", "MC_Tsig_quick_stream.cfg", heap="3g", workers=1)
             ctx.model("MC_Tsig", "MC_Tsig_thorough_stream.cfg", heap="6g")
-        for inv in () if os.environ.get("C14_SKIP_MODEL") else ("Vac_StreamAllAccepted", "Vac_TaintRejected", "Vac_EdgeAccepted", "Vac_EdgeRejected"):
-            r = ctx.model("MC_Tsig", ctx.cfg("vac_%s.cfg" % inv, VAC_CFG.format(inv="INVARIANT " + inv)), expect_ok=False,
-                          count=False, workers=1, heap="1g")
+        for inv in () if os.environ.get("C14_SKIP_MODEL") else ("Vac_StreamAllAccepted", "Vac_TaintRejected", "Vac_EdgeAccepted",
+                                                                 "Vac_EdgeRejected", "Vac_ResignAccepted"):
+            rs = inv == "Vac_ResignAccepted"
+            r = ctx.model("MC_Tsig", ctx.cfg("vac_%s.cfg" % inv, VAC_CFG.format(inv="INVARIANT " + inv, kind="response" if rs else "stream",
+                                                                              maxresign=1 if rs else 0)),
+                          expect_ok=False, count=False, workers=1, heap="1g")
             if r.violated != inv:
                 from vlib import core
                 raise core.Machinery("vacuity witness %s not reachable (violated=%s errors=%s)" % (inv, r.violated, r.errors[:2]))
@@ -130,37 +143,54 @@ def run(ctx):
             scripts += gen(ctx, "g1b.cfg", algs='= {"hmac-sha256-128", "hmac-md5.sig-alg.reg.int"}', fudges="{0}", errors="{0, 16}", lens="{2}")
             scripts += gen(ctx, "g2.cfg", algs='= {"hmac-sha256"}', fudges="{300}", skews="GSkewsBig", errors="{0}",
                            kinds=tset(["query", "stream"]), lens="{2}")
+            # the same Message object rendered again (Resign): genuine for every algorithm; with one fault for two
+            scripts += gen(ctx, "gr1.cfg", fudges="{2}", errors="{0}", total=0, lens="{2}", maxresign=2, mods=ALL_MODS, nlens="{2, 3}")
+            scripts += gen(ctx, "gr2.cfg", algs='= {"hmac-sha256", "hmac-sha384-192"}', fudges="{2}", errors="{0}",
+                           kinds=tset(["query", "response"]), maxresign=1, mods=ALL_MODS, nlens="{2}")
         else:
             scripts += gen(ctx, "g1.cfg", maxenv=4, lens="{2, 3, 4}")
             scripts += gen(ctx, "g2.cfg", algs='= {"hmac-sha256", "hmac-sha512-256"}', fudges="{300}", skews="GSkewsBig", errors="{0}",
                            kinds=tset(["query", "response", "stream"]), lens="{2}")
             scripts += gen(ctx, "g3.cfg", algs='= {"hmac-sha1", "hmac-sha384-192"}', fudges="{2}", errors="{0}", maxfaults=2, total=2,
                            kinds=tset(["response", "stream"]), lens="{3}")
+            scripts += gen(ctx, "gr1.cfg", fudges="{0, 2}", errors="{0}", total=0, lens="{2, 3}", maxresign=2, mods=ALL_MODS, nlens="{2, 3}")
+            scripts += gen(ctx, "gr2.cfg", fudges="{2}", errors="{0, 16}", lens="{2}", maxresign=1, mods=ALL_MODS, nlens="{2}")
         jobs = []
         nv = len(ALL_VARIANTS)
         per_genuine = 2 if quick else 24
         per_faulty = 1 if quick else 2
+        seen_scripts = set()
         for i, s in enumerate(scripts):
+            key = json.dumps(s, sort_keys=True)
+            if key in seen_scripts:  # the generator runs overlap (a script without Resign may come from two of them)
+                continue
+            seen_scripts.add(key)
             genuine = not faults_of(s)
-            n = per_genuine if genuine else per_faulty
+            resign = any(e["op"] == "resign" for e in s)
+            n = (1 if (resign and quick) else per_genuine) if genuine else per_faulty
+            # bit flips on every genuine script; on re-rendering scripts only for one algorithm in quick (declared cut)
+            flip = genuine and (not resign or not quick or s[0]["alg"] == "hmac-sha256")
             for j in range(n):
                 var = ALL_VARIANTS[(i * 37 + j * 53 + ctx.seed * 11) % nv]
-                jobs.append((s, var, "s%d.v%d" % (i, j), genuine))
+                if resign:  # re-rendering exists only for Message objects
+                    var = dict(var, route="message")
+                jobs.append((s, var, "s%d.v%d" % (i, j), flip))
         # the low-level Renderer API given a dns.tsig.Key and no `algorithm` argument: genuine exchanges only
         k = 0
         for i, s in enumerate(scripts):
-            if not faults_of(s) and s[0]["fudge"] == 2 and s[0]["error"] == 0 and (quick is False or s[0]["kind"] != "stream" or s[0]["len"] == 2):
+            if not faults_of(s) and not any(e["op"] == "resign" for e in s) and s[0]["fudge"] == 2 and s[0]["error"] == 0 and (quick is False or s[0]["kind"] != "stream" or s[0]["len"] == 2):
                 var = dict(ALL_VARIANTS[(k * 41 + ctx.seed * 7) % nv], route="renderer_noalg")
                 jobs.append((s, var, "s%d.noalg" % i, False))
                 k += 1
         ctx.extra["scripts"] = len(scripts)
         ctx.extra["genuine_scripts"] = sum(1 for s in scripts if not faults_of(s))
+        ctx.extra["resign_scripts"] = len(set(json.dumps(s, sort_keys=True) for s in scripts if any(e["op"] == "resign" for e in s)))
     jobmap = {j[2]: j for j in jobs}
     ctx.log("running %d jobs on dnspython" % len(jobs))
     traces = ctx.pmap(c14_tsig.run_job, jobs)
     ctx.log("driver done")
     flips = sum(e.get("nflips", 0) for tr in traces for e in tr["ev"])
-    calls = sum(1 for tr in traces for e in tr["ev"] if e["op"] in ("send", "deliver"))
+    calls = sum(1 for tr in traces for e in tr["ev"] if e["op"] in ("send", "resign", "deliver"))
     ctx.evaluations = flips + calls
     ctx.extra.update(bit_flips=flips, sign_and_deliver_calls=calls,
                      flips_accepted_unauthenticated=sum(len(e.get("okbits", [])) for tr in traces for e in tr["ev"]),
@@ -176,7 +206,7 @@ def run(ctx):
     variants_used = set(json.dumps(j[1], sort_keys=True) for j in jobs)
     ctx.extra["variants_used"] = len(variants_used)
     for j in jobs:
-        if j[3] or faults_of(j[0]) or any(e["op"] == "send" and not e["signed"] for e in j[0]):
+        if j[3] or faults_of(j[0]) or any((e["op"] == "send" and not e["signed"]) or e["op"] == "resign" for e in j[0]):
             ctx.note_distinct(json.dumps([j[0], j[1]], sort_keys=True))
     for tr in traces[:3]:
         ctx.sample({"tid": tr["tid"], "var": tr["var"], "ev": [{k: (v if not isinstance(v, list) or len(v) < 12 else "<%d items>" % len(v))
